@@ -548,6 +548,46 @@ TEXT_EDITS = [
     ('evolution.py', "        for i in reversed(range(1, L)):\n            # right-orthonormalize current psi.A[i]",
      "        for i in range(L - 1, 0, -1):\n            # right-orthonormalize current psi.A[i]",
      'silent', ['C08', 'C09', 'C02'], 'single-site TDVP: descending range instead of reversed(range) (benign)'),
+    # --- C06: operator tables of the built-in lattice models
+    ('hamiltonian.py', "OpChain([OID.Su, OID.Sd], [0,  2, 0], 0.5*J, 0)", "OpChain([OID.Su, OID.Sd], [0,  1, 0], 0.5*J, 0)", 'violation', ['C06'],
+     'XXZ: bond quantum number of the flip-flop term does not match the charge of S+'),
+    ('hamiltonian.py', "OpChain([OID.Sd, OID.Su], [0, -2, 0], 0.5*J, 0)", "OpChain([OID.Sd, OID.Su], [0, -2, 0], 0.5*D, 0)", 'violation', ['C06'],
+     'XXZ: adjoint partner of the flip-flop term carries another parameter'),
+    ('hamiltonian.py', "OpChain([OID.Sd, OID.Su], [0, -2, 0], 0.5*J, 0)", "OpChain([OID.Sd, OID.Su], [0, -2, 0], J/2, 0)", 'silent', ['C06'],
+     'XXZ: J/2 for 0.5*J (benign)'),
+    ('hamiltonian.py', "        OpChain([OID.CZ, OID.AI], [0, _encode_quantum_number_pair( 1,  1), 0], -t, 0),",
+     "        OpChain([OID.CI, OID.AI], [0, _encode_quantum_number_pair( 1,  1), 0], -t, 0),", 'violation', ['C06'],
+     'Fermi-Hubbard: Jordan-Wigner Z missing between the two spin-up operators'),
+    ('hamiltonian.py', "        OpChain([OID.IC, OID.ZA], [0, _encode_quantum_number_pair( 1, -1), 0], -t, 0),",
+     "        OpChain([OID.IC, OID.ZA], [0, _encode_quantum_number_pair( 1,  1), 0], -t, 0),", 'violation', ['C06'],
+     'Fermi-Hubbard: spin-down hopping labelled with the spin-up quantum number'),
+    ('hamiltonian.py', "    qS = [0, -1,  1,  0]\n    qd = [_encode_quantum_number_pair(q[0], q[1]) for q in zip(qN, qS)]\n    id2 = np.identity(2)",
+     "    qS = [0,  1, -1,  0]\n    qd = [_encode_quantum_number_pair(q[0], q[1]) for q in zip(qN, qS)]\n    id2 = np.identity(2)", 'violation', ['C06'],
+     'Fermi-Hubbard: spin quantum numbers of the two singly occupied states exchanged'),
+    ('hamiltonian.py', "    b_dag = np.diag(np.sqrt(np.arange(1, d, dtype=float)), -1)\n    b_ann = np.diag(np.sqrt(np.arange(1, d, dtype=float)),  1)",
+     "    b_dag = np.diag(np.sqrt(np.arange(1, d, dtype=float)),  1)\n    b_ann = np.diag(np.sqrt(np.arange(1, d, dtype=float)), -1)", 'violation', ['C06'],
+     'Bose-Hubbard: creation and annihilation matrices exchanged'),
+    ('hamiltonian.py', "    for i in range(1, L):\n        graph.add_connect_edge(\n            OpGraphEdge(eid_next, [z_string_r[i].nid, z_string_r[i + 1].nid], [(OID.Z, 1.)]))",
+     "    for i in range(1, L - 1):\n        graph.add_connect_edge(\n            OpGraphEdge(eid_next, [z_string_r[i].nid, z_string_r[i + 1].nid], [(OID.Z, 1.)]))", 'violation', ['C06'],
+     'linear fermionic operator: last Z edge missing'),
+    ('hamiltonian.py', "[(OID.C if use_creation_op else OID.A, coeff[i])]", "[(OID.A if use_creation_op else OID.C, coeff[i])]", 'violation', ['C06'],
+     'linear fermionic operator: creation and annihilation exchanged'),
+    ('hamiltonian.py', "        for i in range(size - lopc.length + 1):", "        for i in range(size - lopc.length):", 'violation', ['C06'],
+     'shifting helper: last admissible start left out'),
+    ('hamiltonian.py', "            chain = copy.copy(lopc)\n            chain.istart = i", "            chain = lopc\n            chain.istart = i", 'violation', ['C06'],
+     'shifting helper: all placements share one chain object'),
+    ('hamiltonian.py', "            chain = copy.copy(lopc)\n            chain.istart = i", "            chain = OpChain(lopc.oids, lopc.qnums, lopc.coeff, i)", 'silent', ['C06'],
+     'shifting helper: placement built by the constructor (benign)'),
+    ('hamiltonian.py', "    node_z     = AutOpNode(2, [], [], 0)", "    node_z     = AutOpNode(2, [], [], 1)", 'violation', ['C06'],
+     'Ising automaton: intermediate state carries a quantum number'),
+    ('hamiltonian.py', "    sigma_x = np.array([[0., 1.], [1.,  0.]])", "    sigma_x = np.array([[0., 1.], [0.,  0.]])", 'violation', ['C06'],
+     'Ising: transverse-field operator not Hermitian'),
+    ('hamiltonian.py', "    Z = np.array([[1., 0.], [0., -1.]])\n    # operator map\n    class OID(IntEnum):\n        Id =  0",
+     "    Z = np.diag([1., -1.])\n    # operator map\n    class OID(IntEnum):\n        Id =  0", 'silent', ['C06'],
+     'Fermi-Hubbard: Z written as np.diag (benign)'),
+    ('hamiltonian.py', "    sq2 = np.sqrt(2.)", "    sq2 = 2.**0.5", 'silent', ['C06'], 'spin-1: sqrt(2) as a power (benign)'),
+    ('hamiltonian.py', "    Sz  = np.array([[1.,  0.,  0.], [0.,  0.,  0. ], [0.,  0., -1.]])", "    Sz  = np.array([[1.,  0.,  0.], [0.,  0.,  1. ], [0.,  0., -1.]])",
+     'violation', ['C06'], 'spin-1: S_z with an off-diagonal entry'),
 ]
 
 
@@ -634,7 +674,7 @@ def all_variants(sources, only_props=None, rename_every=3):
 
 # ----------------------------------------------------------------------
 # robustness: renaming any local variable must not change any verdict
-ALL_PROPS = ['C01', 'C02', 'C03', 'C04', 'C05', 'C07', 'C08', 'C09', 'C10', 'C11', 'C12', 'C13', 'C14', 'C16', 'C17', 'C19']
+ALL_PROPS = ['C01', 'C02', 'C03', 'C04', 'C05', 'C06', 'C07', 'C08', 'C09', 'C10', 'C11', 'C12', 'C13', 'C14', 'C16', 'C17', 'C19']
 FILE_PROPS = {
     'mps.py': ['C01', 'C02', 'C03', 'C12', 'C13', 'C19'],
     'mpo.py': ['C01', 'C02', 'C03', 'C05', 'C19'],
